@@ -68,7 +68,7 @@ func probeToks(op *Op) []int64 {
 	n := len(op.Es)
 	seen := map[int]bool{}
 	var out []int64
-	for _, i := range []int{0, n / 3, n / 2, 999, 1000, 1001, n - 2, n - 1} {
+	for _, i := range []int{0, n / 3, n / 2, 999, 1000, 1001, 1999, 2000, 2001, 4095, 4096, n - 2, n - 1} {
 		if i >= 0 && i < n && !seen[i] {
 			seen[i] = true
 			out = append(out, op.Es[i].A)
@@ -230,9 +230,9 @@ func runHistory(id int, seed int64, nops int, nTrig int, base string, pool *stor
 				ftok = 595 // never hand the genesis header itself to the follow-up append
 			}
 			if len(pool.Headers) > 1000 {
-				ftok = 2100 + int64(len(h.Cases)%30) // the big pool's batch uses the low tokens
+				ftok = 5000 + int64(len(h.Cases)%30) // the big pool's batch uses the low tokens
 				if ftok == pool.Genesis {
-					ftok = 2150
+					ftok = 5050
 				}
 			}
 			// a sample of the images (every filter-append image, a third of
@@ -322,7 +322,7 @@ func main() {
 	firstStart := &History{ID: 800, FirstStart: true}
 	// one append of a whole headers message (more entries than any internal
 	// chunking would use), over its own, larger header pool
-	const bigID, bigN = 850, 1500
+	const bigID, bigN = 850, 4500
 	var bigPool *storeh.Pool
 	var bigHist *History
 	var replay *History
@@ -341,7 +341,7 @@ func main() {
 		}
 		corpus = append(corpus, *firstStart, History{ID: 801, FirstStart: true, ViaCS: true})
 		n += len(corpus)
-		bigPool = storeh.NewPool(2300, gf)
+		bigPool = storeh.NewPool(5200, gf)
 		bh := History{ID: bigID}
 		op := Op{Kind: "bwrite", WF: true}
 		for t, ht := int64(1), int64(1); ht <= bigN; t++ {
